@@ -113,6 +113,8 @@ def strip_doc(body: list) -> list:
 
 
 def get_function(qualname: str) -> FnSource:
+    full = qualname
+    qualname = qualname.partition("#")[0]     # "module:func#label": several (block) contracts on one function
     module, _, fpath = qualname.partition(":")
     path = module_path(module)
     text, tree = _parse(path)
@@ -137,7 +139,7 @@ def get_function(qualname: str) -> FnSource:
                          decorator_list=[], returns=None, type_comment=None, type_params=[])
     ast.fix_missing_locations(nd)
     h = hashlib.sha256(ast.dump(nd, include_attributes=False).encode()).hexdigest()
-    fs = FnSource(qualname, path, node, src, h)
+    fs = FnSource(full, path, node, src, h)
     fs.consts = _module_consts(tree, module)
     fs.module_funcs = {s.name: s for s in tree.body if isinstance(s, ast.FunctionDef)}
     index_function(fs)
